@@ -7,3 +7,6 @@ func Enable(seed int64, heavy bool) {}
 func Hits() map[string]int64       { return map[string]int64{} }
 
 const Available = false
+
+// Observe is a no-op without the hooks.
+func Observe(f func(site string)) {}
